@@ -1,6 +1,6 @@
 (* C14 - the parser realises the documented expression grammar: render-then-parse round-trips. *)
-From Coq Require Import List Arith String.
-From Bloch Require Import Parse.PrattModel Parse.PrattProofs.
+From Coq Require Import List Arith String Lia.
+From Bloch Require Import Parse.PrattModel Parse.PrattProofs Parse.StmtModel Parse.StmtProofs.
 Import ListNotations.
 
 (* every well-parenthesised tree over all expression forms (literals, names, this/super/null, measure,
@@ -24,9 +24,54 @@ Theorem C14_minimal_rendering_is_well_parenthesised : forall e, idx_ok e -> ok (
 Proof. exact add_parens_ok. Qed.
 Print Assumptions C14_minimal_rendering_is_well_parenthesised.
 
+(* statements: every well-formed statement tree - blocks, declarations (final, @tracked, primitive / class / array types
+   with literal, named or absent sizes), return, if / else, for with every kind of initialiser, while, echo, reset,
+   measure, destroy, the conditional statement (also on a measurement), assignment and expression statements, nested
+   to any depth - is parsed back from its rendering, in front of every continuation that does not begin with 'else'.
+   [ok_stmt] asks that the expressions are well parenthesised ([ok]), that array sizes fit, and - where the grammar itself is
+   ambiguous - that the statement's first tokens do not read as something else (an expression statement must not start
+   like a block, a measure statement, 'name =' or a declaration; a class-typed declaration must pass the look-ahead) *)
+Theorem C14_statement_render_then_parse_roundtrips : forall s rest, ok_stmt s -> no_else rest ->
+  exists n0, forall n, n0 <= n -> p_stmt n (render_stmt s ++ rest) = Some (s, rest).
+Proof. exact stmt_roundtrip. Qed.
+Print Assumptions C14_statement_render_then_parse_roundtrips.
+
+Theorem C14_block_body_roundtrips : forall ss rest, ok_stmts ss ->
+  exists n0, forall n, n0 <= n -> p_items_s n (render_stmts ss ++ KRBrace :: rest) = Some (ss, rest).
+Proof. exact block_roundtrip. Qed.
+Print Assumptions C14_block_body_roundtrips.
+
+(* the look-ahead condition on declarations holds for every primitive type with any dimensions and for class types
+   that are plain or have one dimension of absent or literal size *)
+Theorem C14_declarations_pass_the_look_ahead : forall (p : prim) (ds : list asize) (c t name : string),
+  decl_start (mkTy (BPrim p) ds) name /\ decl_start (mkTy (BCls c nil) nil) name /\
+  decl_start (mkTy (BCls c nil) (ANone :: nil)) name /\ decl_start (mkTy (BCls c nil) (ALit t :: nil)) name.
+Proof. intros. split; [apply decl_start_prim|split; [apply decl_start_cls|split; [apply decl_start_cls_arr|apply decl_start_cls_arr_lit]]]. Qed.
+Print Assumptions C14_declarations_pass_the_look_ahead.
+
 Local Open Scope string_scope.
 Definition v (s : string) := EVar s.
 Example ex_roundtrip :
   let e := EBin Mul (EBin Add (v "a") (EUn PNeg (EPost PInc (v "b")))) (EBin Sub (v "c") (EBin Sub (v "d") (ECall (EMember (v "o") "f") [EAssign "x" (EMeasure (v "q"))]))) in
   parse_expr (render (add_parens e) ++ [KRP]) = Some (add_parens e, [KRP]) /\ add_parens e <> e /\ strip (add_parens e) = e.
 Proof. cbv zeta. split; [vm_compute; reflexivity|]. split; [vm_compute; discriminate|vm_compute; reflexivity]. Qed.
+
+(* non-vacuity: a nested statement that meets every hypothesis, and its round trip by computation *)
+Definition sample_stmt : stmt :=
+  SBlock [SDecl true true (mkTy (BPrim TyQubit) [ALit "3"]) "r" None;
+          SDecl false false (mkTy (BCls "K" ["pkg"]) []) "k" (Some (ENew "K" []));
+          SIf (EBin Lt (v "a") (v "b")) [SEcho (v "x"); SReturn None] (Some [SAssign "x" (ELit "int" "1")]);
+          SFor (FDecl false (mkTy (BPrim TyInt) []) "i" (Some (ELit "int" "0"))) (EBin Lt (v "i") (ELit "int" "3"))
+               (EAssign "i" (EBin Add (v "i") (ELit "int" "1"))) [SMeasure (v "q"); SReset (EIndex (v "r") (ELit "int" "0"))];
+          STern (EMeasure (v "q")) (SEcho (ELit "int" "1")) (STern (v "c") (SReturn (Some (v "z"))) (SExpr (ECall (v "f") [v "y"])));
+          SWhile (v "t") [SDestroy (v "o"); SExpr (EPost PInc (v "n"))]].
+Example ex_stmt_ok : ok_stmt sample_stmt.
+Proof.
+  cbn [sample_stmt ok_stmt ok_finit ok_opt ok_ty ok_dim tdims tbase_of]. unfold expr_start, decl_start, tight.
+  repeat split; try (cbn; lia); try reflexivity; try (cbn; auto; fail); try (intros; discriminate);
+    try (right; intros tl; reflexivity); try (right; intros tl; split; [exact I|reflexivity]);
+    try (intros tl; split; [exact I|reflexivity]); try (left; reflexivity); try (constructor; [reflexivity|constructor]); try constructor;
+    try (unfold rbp, lbp, postfix_bp; lia); try (eexists; reflexivity).
+Qed.
+Example ex_stmt_roundtrip : parse_stmt (render_stmt sample_stmt ++ [KRBrace]) = Some (sample_stmt, [KRBrace]).
+Proof. vm_compute. reflexivity. Qed.
